@@ -35,7 +35,7 @@ RULE = ('case = (component or composite with parameters, state, action, next sta
         '(returns something else than its neutral value / True); distinct by (component spec, deep encodings of both states, '
         'action). Categories count each component x {fires, silent} x {real, arbitrary} triple.')
 ASSUMPTIONS = ['reference semantics taken from the docstrings; tolerance 1e-9 relative on sums']
-REQUIRED = {'quick': {'composite.failing_part': 200, 'component.evals': 20000, 'composite.evals': 2000, 'gridworld.spied_steps': 3000,
+REQUIRED = {'quick': {'composite.failing_part': 200, 'maze.evals': 300, 'component.evals': 20000, 'composite.evals': 2000, 'gridworld.spied_steps': 3000,
                       'exit_agreement.steps': 1500, 'exit_agreement.fired': 5, 'shipped.total_reward_checked': 1500, 'far_distance.evals': 100,
                       **{f'fires.reward.{n}': 8 for n in ['reach_exit', 'overlap', 'bump_moving_obstacle', 'bump_into_wall',
                                                           'proportional_to_distance', 'getting_closer',
@@ -163,8 +163,24 @@ def direct(comp, rng, s):
     from gym_gridverse.grid_object import Color, Door, Key, NoneGridObject
     h, w = comp.shape
     U = comp.unique_type
-    scenario = rng.choice(['door_open', 'door_unlock', 'door_close', 'wall_bump', 'pick', 'drop', 'exit_step', 'obstacle_step'])
+    scenario = rng.choice(['door_open', 'door_unlock', 'door_close', 'wall_bump', 'pick', 'drop', 'exit_step', 'obstacle_step',
+                           'door_elsewhere'])
     fy, fx = gen.front_of(s)
+    if scenario == 'door_elsewhere':
+        # a door somewhere other than in front changes its status between the two states (on the opposite rim when the agent
+        # faces out of the grid - where a wrapped index would look -, behind the agent, or two cells ahead): nothing the agent
+        # faces changed, so nothing is paid for it
+        oy, ox = (fy % h, fx % w) if not gen.in_grid(s, fy, fx) else rng.choice(
+            [(2 * s.agent.position.y - fy, 2 * s.agent.position.x - fx), (2 * fy - s.agent.position.y, 2 * fx - s.agent.position.x)])
+        if (oy, ox) == (fy, fx) or not (gen.in_grid(s, oy, ox) and Door is not U and (U is None or not isinstance(s.grid[oy, ox], U))
+                                        and not (comp.need_beacon and isinstance(s.grid[oy, ox], Beacon))):
+            return None
+        c = rng.choice(list(Color))
+        st0, st1 = rng.sample(list(Door.Status), 2)
+        s.grid[oy, ox] = Door(st0, c)
+        ns = dyndrive.copy_state(s)
+        ns.grid[oy, ox] = Door(st1, c)
+        return Action.ACTUATE, ns
     move = rng.choice([Action.MOVE_FORWARD, Action.MOVE_BACKWARD, Action.MOVE_LEFT, Action.MOVE_RIGHT])
     dy, dx = refmodel.move_vector(s.agent.orientation, move)
     ty, tx = s.agent.position.y + dy, s.agent.position.x + dx
@@ -240,6 +256,59 @@ def far_distance_checks(ctx, n):
                     ctx.violation('component', f'value.reward.{spec["name"]}',
                                   f'{spec["name"]} ({spec["distance_function"]}) {h}x{w} grid, object at ({ey},{ex}), agent ({ay},{ax})->({ny},{nx}): '
                                   f'returned {v!r}, documented value {want!r}', 'far_case', {'k': [ctx.seed, ctx.shard, k]})
+
+
+def maze_checks(ctx, n):
+    """shortest-path shaping in winding corridors: the path to the object is many times longer than the grid is wide (longer
+    than its perimeter), and parts of the maze are walled off from the object altogether (distance infinite before and after)"""
+    from gym_gridverse.agent import Agent
+    from gym_gridverse.geometry import Orientation
+    from gym_gridverse.grid import Grid
+    from gym_gridverse.state import State
+    types = type_map()
+    spec = {'name': 'getting_closer_shortest_path', 'object_type': 'Exit', 'reward_closer': 0.25, 'reward_further': -0.5}
+    fn = compose.build('reward', spec)
+    for k in range(n):
+        rng = gen.rng_for('C12maze', ctx.seed, ctx.shard, k)
+        h, w = rng.choice([(7, 7), (9, 9), (11, 11), (9, 13), (13, 9), (13, 13), (7, 15)])
+        rows = [[Wall() if (y in (0, h - 1) or x in (0, w - 1)) else Floor() for x in range(w)] for y in range(h)]
+        # serpentine: full wall rows at every other interior row, with a gap alternating between the right and the left end
+        path = []
+        for j, y in enumerate(range(1, h - 1)):
+            if j % 2 == 1:
+                gap = w - 2 if (j // 2) % 2 == 0 else 1
+                for x in range(1, w - 1):
+                    if x != gap:
+                        rows[y][x] = Wall()
+                path.append((y, gap))
+            else:
+                xs = list(range(1, w - 1))
+                if (j // 2) % 2 == 1:
+                    xs.reverse()
+                path += [(y, x) for x in xs]
+        if k % 3 == 2:  # wall the last corridor off: everything before it is cut off from the object
+            cy, cx = path[len(path) * 2 // 3]
+            rows[cy][cx] = Wall()
+        ey, ex = path[-1]
+        rows[ey][ex] = Exit()
+        for _ in range(12):
+            i = rng.randrange(len(path) - 1)
+            (ay, ax), (ny, nx) = (path[i], path[i + 1]) if rng.random() < 0.5 else (path[i + 1], path[i])
+            if type(rows[ay][ax]) is not Floor or type(rows[ny][nx]) not in (Floor, Exit):
+                continue
+            s_ = State(Grid(rows), Agent(Position(ay, ax), Orientation.F))
+            ns = State(Grid(rows), Agent(Position(ny, nx), Orientation.F))
+            ok, v = call_real(fn, s_, Action.MOVE_FORWARD, ns)
+            ctx.ev()
+            ctx.hit('maze.evals')
+            want = refmodel.ref_reward(spec, types, s_, Action.MOVE_FORWARD, ns)
+            if not ok or not close(v, want):
+                ctx.violation('component', 'value.reward.getting_closer_shortest_path',
+                              f'{h}x{w} serpentine maze{" (cut)" if k % 3 == 2 else ""}, object at ({ey},{ex}), agent ({ay},{ax})->({ny},{nx}) '
+                              f'[{len(path) - 1 - i} corridor cells from the object]: returned {v if ok else describe_exc(v)!r}, '
+                              f'documented value {want!r}', 'maze_case', {'k': [ctx.seed, ctx.shard, k]})
+            elif want != 0:
+                ctx.nontrivial(('maze', h, w, ay, ax, ny, nx))
 
 
 def make_triples(ctx, comp, rng, n):
@@ -570,6 +639,7 @@ def run(ctx):
         drive_compositions(ctx, ctx.pick(240, 12000), log)
         far_distance_checks(ctx, ctx.pick(10, 150))
         failing_parts(ctx, ctx.pick(120, 2000))
+        maze_checks(ctx, ctx.pick(40, 600))
         drive_shipped(ctx, log, ctx.pick(1, 20), ctx.pick(120, 500))
 
 
@@ -577,6 +647,10 @@ def replay(ctx, kind, payload):
     from .. import custom_objects
     custom_objects.enable(cleats=True, subclasses=True)
     types = type_map()
+    if kind == 'maze_case':
+        ctx.seed, ctx.shard = payload['k'][0], payload['k'][1]
+        maze_checks(ctx, payload['k'][2] + 1)
+        return
     if kind == 'failing_case':
         ctx.seed, ctx.shard = payload['k'][0], payload['k'][1]
         failing_parts(ctx, payload['k'][2] + 1)
